@@ -14,5 +14,6 @@ var verifHarnesses = map[string]func(){
 	"VerifC11Abort": VerifC11Abort,
 	"VerifC03Forged": VerifC03Forged,
 	"VerifC04Tampered": VerifC04Tampered,
+	"VerifC02Heal": VerifC02Heal,
 	"VerifC03LocalWrite": VerifC03LocalWrite,
 }
